@@ -262,7 +262,7 @@ func c09History(c *fw.Ctx, r *rand.Rand, id string, parked bool) {
 						out = c09Out{Val: "panic: " + o.PanicMsg, Err: true}
 					case o.Err != nil:
 						out = c09Out{Val: o.Err.Error(), Err: true}
-						if (strings.Contains(o.Err.Error(), "timeout") || hx.IsTimeoutText(o.Err.Error())) {
+						if strings.Contains(o.Err.Error(), "timeout") || hx.IsTimeoutText(o.Err.Error()) {
 							blocked <- fmt.Sprintf("client %d: %s ended only with the context deadline", ci, c09Form(in))
 						}
 					default:
